@@ -117,6 +117,16 @@ pub fn run(tier: Tier) -> Report {
         crate::img::refine_violations(&mut acc, 0, &px1, 1, &|x, it| check_rt(x, 0, it), &pxs_json);
         rep.acc.merge(acc);
     }
+    if !light() {
+        let px = axis_sweeps(4.0);
+        let n = px.len() as u64;
+        let acc = par_chunks_varied(n, 1 << 14, |acc, lo, hi| {
+            let it = &px[lo as usize..hi as usize];
+            check_fwd(acc, "axis sweep", lo, it);
+            crate::img::refine_violations(acc, lo, it, 1, &|a, x| check_fwd(a, "axis sweep", 0, x), &pxs_json);
+        });
+        rep.acc.merge(acc);
+    }
     // negative stratum on [-1,4]^3
     let steps: u64 = tier.pick(if light() { 40 } else { 80 }, 200);
     let g: Vec<f32> = (0..=steps).map(|i| (-1.0 + 5.0 * i as f64 / steps as f64) as f32).collect();
@@ -226,6 +236,25 @@ fn check_rt(acc: &mut Acc, base: u64, px: &[[f32; 3]]) {
     acc.worst("abs_err", worst, || mk(wp));
 }
 
+/// One channel swept finely (65,537 uniform points on [0,hi]) with the two others fixed at black,
+/// at a very dark and at a mid value: shortcuts for "small" or "dominant" channels are thresholded
+/// somewhere on an axis, between the points of a product lattice.
+fn axis_sweeps(hi: f32) -> Vec<[f32; 3]> {
+    let mut v = Vec::with_capacity(9 * 65_537);
+    for c in 0..3 {
+        for others in [[0.0f32, 0.0], [1e-4, 3e-4], [0.5, 0.25]] {
+            for i in 0..=65_536u32 {
+                let x = hi * i as f32 / 65_536.0;
+                let mut p = [others[0], others[1], others[0]];
+                p[(c + 1) % 3] = others[1];
+                p[c] = x;
+                v.push(p);
+            }
+        }
+    }
+    v
+}
+
 pub fn run_c05(tier: Tier) -> Report {
     let mut rep = Report::new("C05");
     let a = axis(1.0, tier.pick(if light() { 56 } else { 200 }, 1500));
@@ -254,7 +283,17 @@ pub fn run_c05(tier: Tier) -> Report {
             rep.acc.merge(acc);
         }
     }
-    rep.bound = format!("three large images (65,539, 262,147 and 1281x721 pixels) and the full product of a {al}-value axis alphabet on [0,1] (0, min subnormal, min normal, 2^-k for k=1..40, uniform grid of {} points) = {total} pixels", tier.pick(if light() { 56 } else { 200 }, 1500));
+    if !light() {
+        let px = axis_sweeps(1.0);
+        let n = px.len() as u64;
+        let acc = par_chunks_varied(n, 1 << 14, |acc, lo, hi| {
+            let it = &px[lo as usize..hi as usize];
+            check_rt(acc, lo, it);
+            crate::img::refine_violations(acc, lo, it, 1, &|a, x| check_rt(a, 0, x), &pxs_json);
+        });
+        rep.acc.merge(acc);
+    }
+    rep.bound = format!("each channel swept over 65,537 points with the others at three fixed levels; three large images (65,539, 262,147 and 1281x721 pixels) and the full product of a {al}-value axis alphabet on [0,1] (0, min subnormal, min normal, 2^-k for k=1..40, uniform grid of {} points) = {total} pixels", tier.pick(if light() { 56 } else { 200 }, 1500));
     rep.rule = "LinearRgb::from(Xyb::from(LinearRgb)) on every pixel, |result - input| <= 5e-5 per component, dims preserved; the forward path is the oracle".into();
     rep.guard_bucket("returned within 5e-5");
     rep
